@@ -32,6 +32,9 @@ TEMPLATES = {
     'var-formats': '<dtml-var tag fmt="x%sx" upper><dtml-var expr="tag * 2" html_quote>&dtml-tag;<dtml-var num fmt=%05d>'
                    '<dtml-var missing_ missing="M"><dtml-call "tag">',
     'sub': '<dtml-var sub><dtml-in seq sort_expr="key" size=3 orphan=0><dtml-var sequence-index><dtml-var name></dtml-in>',
+    'with-only': '<dtml-with o only>[<dtml-var name>/<dtml-var name>]</dtml-with><dtml-with o mapping_ only><dtml-var name></dtml-with>'.replace(' mapping_', ''),
+    'try-classes': '<dtml-try><dtml-if flag><dtml-raise KeyError><dtml-var tag></dtml-raise><dtml-else><dtml-raise ValueError>v<dtml-var tag>'
+                   '</dtml-raise></dtml-if><dtml-except ValueError>V:<dtml-var error_value><dtml-except KeyError>K:<dtml-var error_value></dtml-try>',
 }
 
 
@@ -160,24 +163,33 @@ class Runner:
         except Exception as e:  # noqa
             return ('raise', '%s: %s' % (type(e).__name__, str(e)[:200]))
 
-    def run(self, name, src, cooked, nthreads, script, label):
+    def run(self, name, src, cooked, nthreads, script, label, idx=None, warm=None):
+        """idx: which namespace each thread uses (default 0, 1, …); warm: namespaces rendered (alone) before the threads
+        start, so that anything an earlier rendering left on the compiled tags is there"""
         from DocumentTemplate import HTML
         sub = HTML('[sub <dtml-var tag>]')
         sub.cook()
         t = HTML(src)
         if cooked:
             t.cook()
-        bodies = [(lambda i=i: t(**namespace(i, sub))) for i in range(nthreads)]
+        for w in (warm or ()):
+            try:
+                t(**namespace(w, sub))
+            except Exception:  # noqa
+                pass
+        idx = list(idx) if idx is not None else list(range(nthreads))
+        bodies = [(lambda i=i: t(**namespace(i, sub))) for i in idx]
         results, s = sched.run_threads(bodies, script, self.marks, self.pkg, mark_self=t)
         self.res.evaluations += 1
         self.res.count('schedule=' + label)
         bad = []
-        for i, r in enumerate(results):
+        for ti, (i, r) in enumerate(zip(idx, results)):
             want = self.solo(src, i)
             if r != want:
-                bad.append('thread %d obtained %r, alone it obtains %r' % (i, r, want))
+                bad.append('thread %d obtained %r, alone it obtains %r' % (ti, r, want))
         if bad:
             self.res.oracle_fail.append({'case': {'template': name, 'source': src, 'compiled_before': cooked, 'threads': nthreads,
+                                                  'namespaces': idx, 'rendered_before_with': list(warm or ()),
                                                   'schedule': [list(x) if not isinstance(x[1], tuple) else [x[0], list(x[1])] for x in script],
                                                   'family': label},
                                          'what': '; '.join(bad)})
@@ -228,9 +240,14 @@ def explore_one(args):
     for k in range(0, n0 + 1, stride):
         rn.run(name, src, True, 2, [(0, k), (1, sched.INF), (0, sched.INF)], 'compiled-1-preemption')
         rn.run(name, src, True, 2, [(1, k), (0, sched.INF), (1, sched.INF)], 'compiled-1-preemption')
-    for _ in range(20 if tier == 'quick' else 400):
+    for _ in range(40 if tier == 'quick' else 600):
         k1, k2 = r.randint(0, n0), r.randint(0, n0)
         rn.run(name, src, True, 2, [(0, k1), (1, k2), (0, sched.INF), (1, sched.INF)], 'compiled-2-preemptions')
+    # state an EARLIER rendering left on the compiled tags: threads with like inputs (1, 3) after a rendering with unlike ones
+    for k in range(0, n0 + 1):
+        rn.run(name, src, True, 2, [(0, k), (1, sched.INF), (0, sched.INF)], 'after-earlier-render-1-preemption', idx=(1, 3), warm=(0,))
+        if k % stride == 0:
+            rn.run(name, src, True, 2, [(1, k), (0, sched.INF), (1, sched.INF)], 'after-earlier-render-1-preemption', idx=(3, 1), warm=(2,))
     if do_race:
         n0 = rn.steps_of(name, src, False)
         res.nt(('steps-uncompiled', name, n0))
